@@ -14,7 +14,7 @@ from mc.result import Result
 
 PROPERTY = 'C18'
 LEVEL = 'exploration'
-CASE_GUARD_S = 3600  # a case is a composite (one block of expressions x all texts ...)
+CASE_GUARD_S = {'quick': 300, 'thorough': 3600}  # a case is a composite (a block of expressions x all texts, ...)
 CHUNK = 1
 RULE = ('seed corpus of ~170 valid instruction lines (every instruction of every phase, every form of every type) x every single mutation: delete token i, duplicate token i, swap tokens i,i+1, '
         'replace token i by each of 40 troublesome tokens (parentheses, operators, quote characters, symbol references of every wrong type, ill-formed and extreme integers, regexes and '
